@@ -92,6 +92,17 @@ def check(ctx, report):
                 used_reviews.add(rk)
                 report.sample({'rule': 'C02.R4', 'site': fname, 'operation': 'int', 'verdict': 'every int() argument is a group of a class level pattern that matches digits only'})
                 continue
+            if e.endswith('IndexError') and fname in ('ParserBinary._parse_mpint', 'ParserBinary.parse_ssh_mpint', 'ParserBinary.parse_mpint'):
+                verdict = mpint_prefixes_decided(ctx, report)
+                if verdict is True:
+                    used_reviews.add(rk)
+                    report.sample({'rule': 'C02.R4', 'site': fname, 'operation': what, 'verdict': 'every prefix of the evaluated mpint encodings gives a value or NotEnoughData'})
+                    continue
+                if verdict is not None:
+                    used_reviews.add(rk)
+                    report.add('C02.R4', '%s@escape[IndexError:%s]' % (funcs[fname].construct if fname in funcs else fname, what),
+                               'IndexError can escape a parse entry point: %s' % verdict)
+                    continue
             if what == 'key' and e.endswith('KeyError') and fname.startswith('LDAP') and ldap_keys_decided(ctx):
                 used_reviews.add(rk)
                 report.sample({'rule': 'C02.R4', 'site': fname, 'operation': 'key', 'verdict': 'no KeyError for any evaluated protocolOp alternative (sa/ldapbridge.py)'})
@@ -145,6 +156,51 @@ def check(ctx, report):
     constructed_objects(ctx, report)
     report.floor('C02.R1', 300, 'concrete parsable classes')
     report.floor('C02.R4', 25, 'risky operation sites')
+
+
+def mpint_prefixes_decided(ctx, report):
+    """ParserBinary.parse_ssh_mpint / parse_mpint evaluated (sa.miniexec, through sa.props.c11's models) on *every prefix* of
+    the encodings of integers of both signs and of the empty mpint, behind 0 and 3 bytes of other data: each prefix gives the
+    value or NotEnoughData - an IndexError (a sign octet read past the end) would surface as such"""
+    if 'mpint' in _TAB_CACHE:
+        return _TAB_CACHE['mpint']
+    from ..miniexec import Raised, Unsupported
+    from . import c11
+    model = ctx.model
+    c11._MODEL['model'] = model
+    pb = model.cls('ParserBinary')
+    values = [0, 1, 0x7f, 0x80, 0xff, 0x100, -1, -0x80, -0x81, (1 << 31), (1 << 32) - 1, 1 << 32, -(1 << 31), (1 << 64) + 5, -(1 << 63)]
+    ok, runs = True, 0
+    try:
+        for v in values:
+            enc = c11.rfc4251_mpint(v)
+            for prefix in (b'', b'\x01\x02\x03'):
+                for cut in range(0, len(enc) + 1):
+                    runs += 1
+                    try:
+                        got = c11.parse_mpint_by_ast(pb, enc[:cut], prefix=prefix, model=model)
+                        if cut < len(enc) and ok is True:
+                            ok = 'the first %d of the %d bytes of an SSH mpint are accepted as %r' % (cut, len(enc), got[0])
+                    except Raised as e:
+                        if 'NotEnoughData' not in e.what and cut < len(enc) and ok is True:
+                            ok = 'the first %d of the %d bytes of an SSH mpint (%s) raise %s' % (cut, len(enc), enc[:cut].hex(), e.what[:60])
+        # fixed length mpints: every length against every shorter buffer
+        for length in (1, 3, 4, 5, 8):
+            for have in range(0, length):
+                runs += 1
+                try:
+                    c11.parse_mpint_by_ast(pb, b'\x81' * have, method='parse_mpint', extra={'mpint_length': length}, model=model)
+                    if ok is True:
+                        ok = '%d bytes are accepted as a %d byte integer' % (have, length)
+                except Raised as e:
+                    if 'NotEnoughData' not in e.what and ok is True:
+                        ok = '%d of the %d bytes of a fixed length integer raise %s' % (have, length, e.what[:60])
+    except (Unsupported, KeyError, TypeError):
+        ok = None
+    if ok is True:
+        report.count('C02.R4', runs)
+    _TAB_CACHE['mpint'] = ok
+    return ok
 
 
 def ldap_keys_decided(ctx):
